@@ -86,6 +86,9 @@ Exact == (rn = "returned" /\ ~cmdCtx) =>
            /\ \A r \in Req : scanned[r] = IF kind[r] = "reqerr" THEN 0 ELSE 1
            /\ Set(printed) = {r \in Req : kind[r] = "hit"}
            /\ Set(errlog) = {r \in Req : kind[r] \in {"fail", "reqerr"}} /\ Len(errlog) = Cardinality(Set(errlog))
+\* failures are logged before the call returns whatever the exit delay (the error stream is drained to its end, it does not stop at the
+\* cancellation that ends the delay)
+ErrsExact == (rn = "returned" /\ ~cmdCtx) => (Set(errlog) = {r \in Req : kind[r] \in {"fail", "reqerr"}} /\ Len(errlog) = Cardinality(Set(errlog)))
 Returns == <>(rn = "returned")
 (* ---- refinement to the seam-level specification AppScanObs ---- *)
 oBusy == {r \in Req : \E w \in Wk : wk[w].pc = "scanning" /\ wk[w].req = r}
